@@ -108,7 +108,19 @@ def apply_t3_t1(text, features, counts, keep_attrs=False):
                     else:
                         # drop attribute and the item/statement/expression it governs
                         e = _governed_end(text, m, k + 1)
-                        text = text[:i] + text[e:]
+                        # doc comments directly above the attribute belong to the dropped item
+                        b = i
+                        ls_i = text.rfind('\n', 0, i) + 1
+                        if re.sub(TAG + r'T?\d+' + TAG, '', text[ls_i:i]).strip() == '':
+                            while ls_i > 0:
+                                pls = text.rfind('\n', 0, ls_i - 1) + 1
+                                prev = re.sub(TAG + r'T?\d+' + TAG, '', text[pls:ls_i - 1]).strip()
+                                if prev.startswith('///'):
+                                    ls_i = pls
+                                else:
+                                    break
+                            b = ls_i
+                        text = text[:b] + text[e:]
                     changed = True
                     break
                 mm = re.match(r'cfg_attr\s*\(', attr)
@@ -374,6 +386,13 @@ def assemble(name):
                        lambda k, t=i: ('gen', 'litbytes (UTF-8 bytes of the literal computed by the assembler) from template line %d' % (t + 1)))
                 i += 1
                 continue
+            if d.startswith('litdistinct '):
+                mm = re.match(r'litdistinct\s+(\w+)\s+(.*)$', d)
+                lits = re.findall(r'"((?:[^"\\]|\\.)*)"', mm.group(2))
+                u.emit(gen_litdistinct(mm.group(1), lits),
+                       lambda k, t=i: ('gen', 'litdistinct lemma generated from template line %d' % (t + 1)))
+                i += 1
+                continue
             if d.startswith('include '):
                 rel = d[len('include '):].strip()
                 inc = open(os.path.join(VERIF, rel)).read().rstrip('\n')
@@ -413,6 +432,27 @@ def assemble(name):
         u.origin.append(('tmpl', i + 1))
         i += 1
     return u
+
+
+def gen_litdistinct(name, lits):
+    """proof fn: the given string literals are pairwise distinct as Seq<char> (generated mechanically:
+    reveal_strlit + length facts + one differing index per equal-length pair). Verified by Verus, not trusted."""
+    if len(set(lits)) != len(lits):
+        raise Undecided('litdistinct %s: duplicate literal' % name)
+    ens = []
+    body = []
+    for a in lits:
+        body.append('    reveal_strlit("%s");' % a)
+    for a in lits:
+        body.append('    assert("%s"@.len() == %d);' % (a, len(a)))
+    for x in range(len(lits)):
+        for y in range(x + 1, len(lits)):
+            a, b = lits[x], lits[y]
+            ens.append('        "%s"@ != "%s"@,' % (a, b))
+            if len(a) == len(b):
+                k = next(i for i in range(len(a)) if a[i] != b[i])
+                body.append('    assert("%s"@[%d] != "%s"@[%d]);' % (a, k, b, k))
+    return 'pub proof fn %s()\n    ensures\n%s\n{\n%s\n}' % (name, '\n'.join(ens) if ens else '        true,', '\n'.join(body))
 
 
 def parse_path(spec):
